@@ -125,6 +125,30 @@ def oracle_history(c, sc, out):
     return verdict
 
 
+def oracle_threaddup(c, sc, out):
+    res = out["results"].get("S0.0")
+    data = dict(scenario=sc, result=res, log=cases.short_log(out, 40), stderr=out.get("stderr"))
+    if not cases.usable(out) or not res or "thread_subs" not in res:
+        return "inconclusive"
+    verdict = "ok"
+    for t in res["thread_subs"]:
+        if t["name"] == "first":
+            continue
+        if t.get("error") or not t["is_first"]:
+            c.violation("C05:duplicate-from-thread-not-first-output", f"a duplicate submitted from another thread while the "
+                        f"first submission was still inside submit() got {t['type'] if not t.get('error') else t['error']} "
+                        "instead of the first submission's output", data)
+            verdict = "violation"
+    if res.get("njobs") != 1:
+        c.violation("C05:duplicate-from-thread-new-job", f"{res.get('njobs')} jobs registered for one configuration", data)
+        verdict = "violation"
+    rows = replay.parse_log(out["log"])
+    if cases.count_begins(rows, 1) != 1:
+        c.violation("C05:body-count", f"the body ran {cases.count_begins(rows, 1)} times", data)
+        verdict = "violation"
+    return verdict
+
+
 # ------------------------------------------------------------------ (b), (c)
 def oracle_files(c, sc, out):
     m = sc["meta"]
@@ -139,6 +163,10 @@ def oracle_files(c, sc, out):
         verdict = "violation"
     if rerun:
         c.violation("C05:rerun-after-success", "the body of the job began again after it had succeeded", data)
+        verdict = "violation"
+    if out.get("lock_changes"):
+        c.violation("C05:lock-file-replaced", "the file that carries the run lock of the job was removed or replaced while the "
+                    f"job directory was in use (launches that hold / wait for the old file no longer exclude new ones): {out['lock_changes']}", data)
         verdict = "violation"
     nb = cases.count_begins(rows, 1)
     if not sc.get("pre") and not m.get("real_first"):
@@ -180,11 +208,20 @@ def gen_scenarios(c, nref, n_spawn, n_lock):
     n_hist, n_done, n_comp = (10, 5, 14) if c.quick else (80, 30, 210)
     for i in range(n_hist):
         scs.append(cases.sc_history(f"h{i:04d}", gen_history(rng, rng.randrange(4, 11))))
+    # duplicates from other threads, inside / after the window in which the first submission computes its output
+    for i in range(2 if c.quick else 12):
+        scs.append(cases.sc_threaddup(f"u{i:04d}", sorted(round(rng.uniform(0.05, 1.0), 2) for _ in range(rng.choice([1, 2, 3]))),
+                                      delay=rng.choice([0.5, 0.8])))
+        if i == 0:
+            scs[-1]["runs"][0]["workload"]["offsets"][0] = 0.2
+            scs[-1]["meta"]["offsets"][0] = 0.2
     pres = [dict(done=True, failed=False, stalepid=False), dict(done=True, failed=True, stalepid=False),
             dict(done=True, failed=False, stalepid=True), dict(done=True, failed=True, stalepid=True)]
     for i in range(n_done):
-        real = rng.random() < 0.35
-        scs.append(cases.sc_done_marker(f"d{i:04d}", None if real else pres[i % 4], rng.choice([1, 2, 3]), rng.random() < 0.5, real))
+        real = rng.random() < 0.35 or i == 0
+        # i == 0: a real first run whose body leaves through sys.exit(0), then later experiments
+        scs.append(cases.sc_done_marker(f"d{i:04d}", None if real else pres[i % 4], rng.choice([1, 2, 3]), rng.random() < 0.5, real,
+                                        exit0=(i == 0 or (real and rng.random() < 0.5))))
     for i in range(n_comp):
         ns = rng.choice([2, 2, 3])
         delays = [round(rng.choice([0.0, 0.0, 0.0, rng.uniform(0, 0.01), rng.uniform(0, 0.05), rng.uniform(0, 0.5)]), 3)
@@ -195,10 +232,17 @@ def gen_scenarios(c, nref, n_spawn, n_lock):
         scs.append(cases.sc_compete(f"c{i:04d}", ns, delays, round(rng.choice([0.0, 0.05, 0.2, 0.5]), 2), rng.random() < 0.25, kill,
                                     latch_at=rng.choice([None, None, round(rng.uniform(0.3, 2.0), 2)]),
                                     barrier=rng.random() < 0.8))
+        if rng.random() < 0.3:
+            scs[-1]["files"]["exit0.all"] = ""
+            scs[-1]["meta"]["exit0"] = True
     # forced double launch: every scheduler passed its look-up before any of them wrote a pid file
     if n_lock:
         for i in range(3 if c.quick else 30):
             scs.append(cases.sc_double(f"w{i:04d}", n_lock, rng.choice([2, 2, 3]), rng.choice([0.0, 0.1, 0.3]), rng.random() < 0.25))
+    # three launches, the first one failing: the lock must still exclude the second and the third
+    if n_lock:
+        for i in range(1 if c.quick else 5):
+            scs.append(cases.sc_triple(f"3{i:04d}", n_lock, hold=rng.choice([2.0, 2.5, 3.0])))
     # a job process reads its script while another scheduler is writing it
     if n_lock:
         for i in range(1 if c.quick else 6):
@@ -207,7 +251,8 @@ def gen_scenarios(c, nref, n_spawn, n_lock):
     for i in range(4 if c.quick else 40):
         scs.append(cases.sc_orphan(f"o{i:04d}", n_spawn + (i % 4), rng.choice([1, 1, 2]), round(rng.uniform(0.2, 1.0), 2),
                                    rng.choice([0.0, 0.1])))
-    fam_rank = lambda sc: 0 if sc["meta"].get("double") or sc["meta"].get("orphan") or sc["meta"].get("truncated") else 1  # noqa
+    fam_rank = lambda sc: 0 if (sc["meta"].get("double") or sc["meta"].get("orphan") or sc["meta"].get("truncated")  # noqa
+                                or sc["meta"].get("triple") or sc["meta"].get("exit0")) else 1
     if not c.quick:
         rng.shuffle(scs)
     scs.sort(key=fam_rank)
@@ -271,7 +316,12 @@ def run(c: Check):
         m = sc["meta"]
         fam = m["family"]
         c.count("family:" + fam)
-        if fam == "history":
+        if fam == "threaddup":
+            v = oracle_threaddup(c, sc, o)
+            c.count(f"threaddup:duplicates={len(m['offsets'])}")
+            if any(off < m["delay"] for off in m["offsets"]):
+                c.nontrivial.add(json.dumps(m, sort_keys=True))
+        elif fam == "history":
             v = oracle_history(c, sc, o)
             ops = m["ops"]
             c.count("history:ops", len(ops))
@@ -288,7 +338,11 @@ def run(c: Check):
                 c.count(f"compete:nsched={m['nsched']}")
                 c.count("compete:" + ("fail-first" if m["fail_first"] else "no-failure"))
                 c.count("compete:" + ("kill+restart" if m["kill"] else "no-kill"))
+                if m.get("triple"):
+                    c.count("compete:three-launches-first-fails")
             else:
+                if m.get("exit0"):
+                    c.count("body-ends-with-sys.exit(0)")
                 c.count("done-marker:" + ("real-first-run" if m["real_first"] else "hand-made:" +
                                           "+".join(k for k, x in sorted(m["pre"].items()) if x)))
             if len(sc["runs"]) > 1:
@@ -307,7 +361,7 @@ def run(c: Check):
             c.extra.setdefault("inconclusive", []).append(dict(id=sc["id"], meta=m, timed_out=o["timed_out"], leftover=o["leftover"],
                                                                problems=o["problems"], unfired=o["unfired"], exit=o["exit"],
                                                                stderr=o["stderr"]))
-        if len(c.samples) < 6 and fam in ("history", "compete") and len([s for s in c.samples if s["family"] == fam]) < 3:
+        if len(c.samples) < 6 and fam in ("history", "compete", "threaddup") and len([s for s in c.samples if s["family"] == fam]) < 3:
             c.samples.append(dict(family=fam, scenario=m, results=o["results"], log=cases.short_log(o, 20)))
     c.extra["skipped_for_time"] = skipped
     c.extra["inconclusive_scenarios"] = inconclusive
